@@ -19,6 +19,8 @@ def run(ctx):
         # liveness of the properties: the type-confusion defect switched back on renames a namespace
         M.expect_model_violation(ctx, "MetaDB_ent.cfg", "bug ns-typeconf", {"Bugs": '= {"ns-typeconf"}', "MaxOps": "= 2"},
                                  INV, PROP, "NamespaceNeverRenamed")
+        M.expect_model_violation(ctx, "MetaDB_ent.cfg", "bug ns-createflag", {"Bugs": '= {"ns-createflag"}', "MaxOps": "= 2"},
+                                 INV, PROP, "NamespaceNeverRenamed")
     ctx.ev.set("exhaustive", True)
     # 2. seeded random long histories (4 event types, 2 namespaces, builtin ids, races, reopen)
     rnd = random.Random(ctx.seed)
